@@ -15,4 +15,4 @@ class Part(PC.ProcPart):
     prop = 7
 
 
-PARTS = [Part()]
+PARTS = [Part(), PC.ProcSched()]
